@@ -207,8 +207,9 @@ def hist_header_set(W, ops, prng):
                 except KeyError:
                     pass
         elif op == "update":
-            hs.update([x, "Z"])
-            for y in (x, "Z"):
+            batch = [x, "Z", x.swapcase(), "z", x]  # one call may name a token more than once, in any letter case
+            hs.update(batch)
+            for y in batch:
                 if not mhas(y):
                     model.append(y)
         elif op == "clear":
@@ -569,6 +570,45 @@ VIEW_TABLE = {
 }
 
 
+def detached_views(W, rec):
+    """History: a view is kept (and edited) after the response object it came from is gone - a helper returned
+    (response.headers, response.cache_control), the Headers object was handed to a new response, ...  The header
+    object the view was read from keeps following the view."""
+    import gc
+
+    Response, DS = W["Response"], W["DS"]
+    edits = {
+        "cache_control": (lambda v: (setattr(v, "max_age", 60), setattr(v, "public", True)), "Cache-Control"),
+        "vary": (lambda v: (v.add("Cookie"), v.add("Accept")), "Vary"),
+        "allow": (lambda v: v.update(["GET", "POST"]), "Allow"),
+        "content_security_policy": (lambda v: v.__setitem__("default-src", "'self'"), "Content-Security-Policy"),
+        "www_authenticate": (lambda v: (setattr(v, "type", "basic"), v.__setitem__("realm", "r")), "WWW-Authenticate"),
+        "content_range": (lambda v: v.set(0, 5, 10), "Content-Range"),
+    }
+    for prop, (edit, name) in edits.items():
+        rec.case()
+        rec.nontrivial(("detached", prop))
+        rec.observe("views_kept_after_their_response")
+        case = {"view": prop, "history": "response dropped, view edited"}
+        h = DS.Headers()
+
+        def view_of():
+            r = Response(headers=h)
+            assert r.headers is h
+            return getattr(r, prop)
+
+        v = view_of()
+        gc.collect()
+        try:
+            edit(v)
+        except Exception as e:  # noqa: BLE001
+            rec.violation(f"C16/{prop}:detached-view-edit-raises-{type(e).__name__}", f"{e!r}", case, monitor="readback")
+            continue
+        hdr = h.get(name)
+        if hdr is None or hdr != v.to_header():
+            rec.violation(f"C16/{prop}:view-outlived-its-response", f"the view serialises to {v.to_header()!r}, the Headers object it was read from has {name}: {hdr!r}", case, monitor="readback")
+
+
 def scalars(W, rec):
     from werkzeug.http import COEP, COOP
 
@@ -715,6 +755,7 @@ def run(shard, rec, rng):
             rec.sample({"view": view, "ops": [rng.choice(ops) for _ in range(4)]})
     if idx == 0:
         scalars(W, rec)
+        detached_views(W, rec)
     else:
         rec.observe("scalar_checks", 0)
     reach.finish()
